@@ -458,7 +458,7 @@ func (b *Bitmap) CountRange(start, end uint64) (n uint64) {
 		}
 	}
 
-	if b.Containers.Size() == 0 {
+	if start >= end || b.Containers.Size() == 0 {
 		return
 	}
 
